@@ -331,65 +331,71 @@ func c05Delegation(c *Ctx) {
 
 // ---- exceedsMaxWaitTime ----------------------------------------------------------------------------------
 
-func c05MaxWait(c *Ctx) {
-	c.Rule("maxwait")
-	fn := c.P.Func("ratelimiter.exceedsMaxWaitTime")
-	if fn == nil {
-		// no helper: the refusal test is written where it is used; decide it there, from the two limiters' own
-		// paths: a request is refused (−1) exactly when maxWait ≠ −1 ∧ wait > maxWait, where wait is what the same
-		// computation returns when it grants
-		good := true
-		for _, name := range []string{"ratelimiter.(*smoothStats).acquirePermits", "ratelimiter.(*burstyStats).acquirePermits"} {
-			sf := c.P.Func(name)
-			if sf == nil {
-				c.Unresolved(name, "not found")
-				good = false
-				continue
-			}
-			ev := NewEvaluator(c.P, EvalConfig{})
-			ts := ev.TS
-			ps := ev.Run(sf)
-			maxWait := ev.Param(sf, "maxWaitTime")
-			if ev.Err != nil || len(ps) == 0 || maxWait == nil {
-				c.Undecided(name+"#refusal-test", c.P.FuncPos(sf), fmt.Sprintf("evaluation failed: %v", ev.Err), "")
-				good = false
-				continue
-			}
-			noMax := ts.Cmp("==", maxWait, ts.LinConst(-1, maxWait.Typ))
-			var waits []*T
-			isRefusal := func(p *Path) bool {
-				k, isC := p.Rets[0].IsConstInt()
-				return isC && k == -1
-			}
-			for _, p := range ps {
-				if p.Exit == ExitReturn && len(p.Rets) == 1 && !isRefusal(p) {
-					waits = append(waits, p.Rets[0])
-				}
-			}
-			for _, p := range ps {
-				if p.Exit != ExitReturn || len(p.Rets) != 1 {
-					continue
-				}
-				F := p.State.Facts
-				if isRefusal(p) {
-					exceeded := false
-					for _, w := range waits {
-						if F.Truth(ts, ts.Cmp(">", w, maxWait)) == triT {
-							exceeded = true
-						}
-					}
-					if F.Truth(ts, noMax) != triF || !exceeded {
-						good = false
-						c.Fail(name+"#refusal-test", c.P.FuncPos(sf), "a request may be refused only when a max wait is set (≠ −1) and the computed wait exceeds it", pathTrace(ev, p))
-					}
-				} else if w := p.Rets[0]; !(w == ts.LinConst(0, w.Typ) || F.Truth(ts, noMax) == triT || F.Truth(ts, ts.Cmp(">", w, maxWait)) == triF) {
-					// (a request that fits waits 0, which no valid max wait forbids)
-					good = false
-					c.Fail(name+"#refusal-test", c.P.FuncPos(sf), "a request is granted on a path that does not establish maxWait = −1 or wait ≤ maxWait (a wait equal to the max wait is granted, a longer one is refused)", pathTrace(ev, p))
-				}
+// c05RefusalInContext decides the refusal test where it is used, on the two limiters' own paths (the helper, if
+// there is one, evaluated in place): a request is refused (−1) exactly when maxWait ≠ −1 ∧ wait > maxWait, where wait
+// is what the same computation returns when it grants. A test that is only made on some branch (say, only when no
+// permit is currently free) lets requests through that should have been refused.
+func c05RefusalInContext(c *Ctx) bool {
+	good := true
+	for _, name := range []string{"ratelimiter.(*smoothStats).acquirePermits", "ratelimiter.(*burstyStats).acquirePermits"} {
+		sf := c.P.Func(name)
+		if sf == nil {
+			c.Unresolved(name, "not found")
+			good = false
+			continue
+		}
+		ev := NewEvaluator(c.P, EvalConfig{Inline: func(f *ssa.Function, d int) bool { return canonName(f) == "exceedsMaxWaitTime" }})
+		ts := ev.TS
+		ps := ev.Run(sf)
+		maxWait := ev.Param(sf, "maxWaitTime")
+		if ev.Err != nil || len(ps) == 0 || maxWait == nil {
+			c.Undecided(name+"#refusal-test", c.P.FuncPos(sf), fmt.Sprintf("evaluation failed: %v", ev.Err), "")
+			good = false
+			continue
+		}
+		noMax := ts.Cmp("==", maxWait, ts.LinConst(-1, maxWait.Typ))
+		var waits []*T
+		isRefusal := func(p *Path) bool {
+			k, isC := p.Rets[0].IsConstInt()
+			return isC && k == -1
+		}
+		for _, p := range ps {
+			if p.Exit == ExitReturn && len(p.Rets) == 1 && !isRefusal(p) {
+				waits = append(waits, p.Rets[0])
 			}
 		}
-		if good {
+		for _, p := range ps {
+			if p.Exit != ExitReturn || len(p.Rets) != 1 {
+				continue
+			}
+			F := p.State.Facts
+			if isRefusal(p) {
+				exceeded := false
+				for _, w := range waits {
+					if F.Truth(ts, ts.Cmp(">", w, maxWait)) == triT {
+						exceeded = true
+					}
+				}
+				if F.Truth(ts, noMax) != triF || !exceeded {
+					good = false
+					c.Fail(name+"#refusal-test", c.P.FuncPos(sf), "a request may be refused only when a max wait is set (≠ −1) and the computed wait exceeds it", pathTrace(ev, p))
+				}
+			} else if w := p.Rets[0]; !(w == ts.LinConst(0, w.Typ) || F.Truth(ts, noMax) == triT || F.Truth(ts, ts.Cmp(">", w, maxWait)) == triF) {
+				// (a request that fits waits 0, which no valid max wait forbids)
+				good = false
+				c.Fail(name+"#refusal-test", c.P.FuncPos(sf), "a request is granted on a path that does not establish maxWait = −1 or wait ≤ maxWait (a wait equal to the max wait is granted, a longer one is refused)", pathTrace(ev, p))
+			}
+		}
+	}
+	return good
+}
+
+func c05MaxWait(c *Ctx) {
+	c.Rule("maxwait")
+	inContext := c05RefusalInContext(c)
+	fn := c.P.Func("ratelimiter.exceedsMaxWaitTime")
+	if fn == nil {
+		if inContext {
 			c.Ok("ratelimiter.exceedsMaxWaitTime", "", "no helper: refused ⇔ maxWait ≠ −1 ∧ wait > maxWait decided on the paths of both limiters")
 		}
 		return
